@@ -518,9 +518,9 @@ def ensemble_terminated(h):
     else:
         h.check('verdict-is-the-best-members', 'iff(truthy(r), %s)' % stop_best, **env)
     if info:
-        kind = 'lim' if (isinstance(r, SStr) and r.parts and 'EvaluationLimits' in str(r.parts[0])) else \
-               'sig' if (isinstance(r, SStr) and r.parts and 'SolverInterrupt' in str(r.parts[0])) else \
-               'term' if isinstance(r, SStr) else 'none'
+        kind = 'lim' if ((isinstance(r, SStr) and r.parts and 'EvaluationLimits' in str(r.parts[0])) or (isinstance(r, str) and r.startswith('EvaluationLimits'))) else \
+               'sig' if ((isinstance(r, SStr) and r.parts and 'SolverInterrupt' in str(r.parts[0])) or (isinstance(r, str) and r.startswith('SolverInterrupt'))) else \
+               'term' if (isinstance(r, SStr) or (isinstance(r, str) and r != '')) else 'none'
         h.check('message-names-a-condition-true-of-the-best-member',
                 "implies(kind == 'lim', fc >= mf or gens >= mi) and implies(kind == 'sig', early) and implies(kind == 'term', tb)", kind=kind, **env)
     else:
